@@ -250,6 +250,51 @@ let do_rng () =
   pr "%s draws %s\n" id (hxs l);
   pr "%s std %s\n" id (hxs l)
 
+(* ---------- PARSE / RAFF: the front end's readers on file bytes ---------- *)
+let rec n_of_int (i : int) : n = if i = 0 then N0 else Npos (pos_of_int i)
+let rec int_of_pos = function XH -> 1 | XO p -> 2 * int_of_pos p | XI p -> 2 * int_of_pos p + 1
+(* decimal rendering of an N that may exceed OCaml's int: go through the model's own render_nat *)
+let string_of_n (x : n) : string =
+  String.concat "" (List.map (fun b -> String.make 1 (Char.chr (match b with N0 -> 0 | Npos p -> int_of_pos p))) (render_nat x))
+let bytes_of_hex (h : string) : int list =
+  List.init (String.length h / 2) (fun i -> int_of_string ("0x" ^ String.sub h (2 * i) 2))
+let do_parse () =
+  let id = "P " ^ tok () in
+  let bytes = if !pos < Array.length !toks then bytes_of_hex (tok ()) else [] in
+  let ((s, e), w) = parse_adjacency (List.map n_of_int bytes) in
+  let show l = String.concat " " (List.map string_of_n l) in
+  pr "%s OK\n%s starts %s\n%s ends %s\n%s weights %s\n" id id (show s) id (show e) id (show w)
+
+let is_space_c c = c = ' ' || (Char.code c >= 9 && Char.code c <= 13)
+let tokens_of_line (l : string) : string list =
+  let n = String.length l in
+  let rec go i acc cur =
+    if i = n then List.rev (if cur = "" then acc else cur :: acc)
+    else if is_space_c l.[i] then go (i + 1) (if cur = "" then acc else cur :: acc) ""
+    else go (i + 1) acc (cur ^ String.make 1 l.[i]) in
+  go 0 [] ""
+let all_digits t = t <> "" && String.for_all (fun c -> c >= '0' && c <= '9') t
+let decimal_number t =
+  (* the tokens the generator emits: [-]digits[.digits][e[+-]digits] *)
+  let ok = ref (t <> "") in
+  String.iter (fun c -> if not ((c >= '0' && c <= '9') || c = '.' || c = 'e' || c = 'E' || c = '-' || c = '+') then ok := false) t;
+  if !ok then (match float_of_string_opt t with Some x -> Some (f64 x) | None -> None) else None
+let do_raff () =
+  let id = "A " ^ tok () in
+  let assort = int () = 1 in let k = int () in let l = int () in let expk = int () in
+  let bytes = if !pos < Array.length !toks then bytes_of_hex (tok ()) else [] in
+  let content = String.concat "" (List.map (fun b -> String.make 1 (Char.chr b)) bytes) in
+  let lines = String.split_on_char '\n' content in
+  (* `if (line.size() == 0) continue;` then erase trailing spaces; tokenisation by whitespace *)
+  let lines = List.filter (fun x -> x <> "") lines in
+  let tl = List.map tokens_of_line lines in
+  let n = if assort then k * l else k * k * l in
+  let w0 = List.init n (fun p -> f64 (-. (float_of_int p) -. 0.5)) in
+  (match read_affinity (fun t -> t = "#") decimal_number (fun t -> if all_digits t && String.length t < 9 then Some (nat_of_int (int_of_string t)) else None)
+           assort tl w0 (nat_of_int expk) with
+   | AffError -> pr "%s ERR\n" id
+   | AffOk w -> pr "%s OK %s\n" id (hxs w))
+
 let () =
   let ic = open_in Sys.argv.(1) in
   let oc = open_out Sys.argv.(2) in
@@ -267,6 +312,8 @@ let () =
          | "LAYOUT" -> do_layout ()
          | "WAFF" -> do_waff ()
          | "RNG" -> do_rng ()
+         | "PARSE" -> do_parse ()
+         | "RAFF" -> do_raff ()
          | "#" -> ()
          | c -> failwith ("unknown component " ^ c))
       with e -> pr "DRIVER-ERROR %s in: %s\n" (Printexc.to_string e) (String.sub line 0 (min 60 (String.length line))));
